@@ -12,6 +12,7 @@ import (
 	"path"
 	"path/filepath"
 	"strings"
+	"sync/atomic"
 	"syscall"
 
 	"github.com/emersion/go-webdav/internal"
@@ -19,6 +20,9 @@ import (
 
 // LocalFileSystem implements FileSystem for a local directory.
 type LocalFileSystem string
+
+// uploadSeq numbers the temporary files of Create within this process.
+var uploadSeq uint64
 
 var _ FileSystem = LocalFileSystem("")
 
@@ -171,7 +175,18 @@ func (fs LocalFileSystem) Create(ctx context.Context, name string, body io.ReadC
 		return nil, false, err
 	}
 
-	wc, err := os.Create(p)
+	// An existing file is replaced atomically: the body is received into a
+	// temporary file next to it, which is renamed over it once complete, so
+	// that an upload which breaks off doesn't destroy the previous content.
+	dst := p
+	flags := os.O_RDWR | os.O_CREATE | os.O_TRUNC
+	if !created {
+		seq := atomic.AddUint64(&uploadSeq, 1)
+		dst = filepath.Join(filepath.Dir(p), fmt.Sprintf(".webdav-put-%d-%d", os.Getpid(), seq))
+		flags |= os.O_EXCL
+	}
+
+	wc, err := os.OpenFile(dst, flags, 0666)
 	if os.IsNotExist(err) || errors.Is(err, syscall.ENOTDIR) {
 		// RFC 4918 section 9.7.1: the parent collection is missing
 		return nil, false, NewHTTPError(http.StatusConflict, errFromOS(err))
@@ -181,12 +196,22 @@ func (fs LocalFileSystem) Create(ctx context.Context, name string, body io.ReadC
 	defer wc.Close()
 
 	if _, err := io.Copy(wc, body); err != nil {
-		os.Remove(p)
+		os.Remove(dst)
 		return nil, false, err
 	}
 	if err := wc.Close(); err != nil {
-		os.Remove(p)
+		os.Remove(dst)
 		return nil, false, err
+	}
+
+	if !created {
+		if st, err := os.Stat(p); err == nil {
+			os.Chmod(dst, st.Mode().Perm())
+		}
+		if err := os.Rename(dst, p); err != nil {
+			os.Remove(dst)
+			return nil, false, errFromOS(err)
+		}
 	}
 
 	fi, err = fs.Stat(ctx, name)
